@@ -77,7 +77,8 @@ let () =
   let cmp = ref false in
   let lines = ref [] in
   let nhist = ref 0 and nbad = ref 0 and nsteps = ref 0 and ncmp = ref 0 and noutside = ref 0
-  and nresync = ref 0 and nchecked = ref 0 in
+  and nresync = ref 0 and nchecked = ref 0 and nqueries = ref 0 and nreimports = ref 0 in
+  let glines = ref [] in
   let finish () =
     if !hid <> "" then begin
       incr nhist;
@@ -163,11 +164,40 @@ let () =
                   transition as part of the next compared step; keep impl_prev as is *)
                ()
              end)
+        | 'Q' ->
+          (* a query answered by the real application on the state just compared *)
+          (match String.index_opt rest ';' with
+           | None -> ()
+           | Some i ->
+             let q = List.map z_of_string (split_ws (String.sub rest 0 i)) in
+             let ans = List.map z_of_string (split_ws (String.sub rest (i + 1) (String.length rest - i - 1))) in
+             incr nqueries;
+             (match answer_query !st q with
+              | None -> mismatch "query" ("unknown query " ^ rest)
+              | Some m ->
+                if m <> ans then
+                  mismatch "query" (Printf.sprintf "q={%s} model={%s} impl={%s}" (line_to_string q) (line_to_string m) (line_to_string ans))))
+        | 'G' ->
+          if rest = "" || l = "GE" then begin
+            (* end of the re-imported module store: compare with the model's re-import *)
+            let impl = List.rev !glines in
+            glines := [];
+            let model = List.filter (fun x -> tag_of x <= 10) (print_state (reimport !st)) in
+            incr nreimports;
+            if model <> impl then begin
+              let only_model = List.filter (fun x -> not (List.mem x impl)) model in
+              let only_impl = List.filter (fun x -> not (List.mem x model)) impl in
+              mismatch "reimport" (Printf.sprintf "model-only={%s} impl-only={%s}"
+                (String.concat " | " (List.map line_to_string only_model))
+                (String.concat " | " (List.map line_to_string only_impl)))
+            end
+          end else
+            glines := List.map z_of_string (split_ws rest) :: !glines
         | _ -> ()
       end
     done
   with End_of_file -> ());
   finish ();
   close_in ic;
-  Printf.printf "SUMMARY histories=%d mismatching=%d steps=%d compared=%d outside=%d resync=%d checked=%d\n"
-    !nhist !nbad !nsteps !ncmp !noutside !nresync !nchecked
+  Printf.printf "SUMMARY histories=%d mismatching=%d steps=%d compared=%d outside=%d resync=%d checked=%d queries=%d reimports=%d\n"
+    !nhist !nbad !nsteps !ncmp !noutside !nresync !nchecked !nqueries !nreimports
